@@ -6,7 +6,7 @@
     guards on its way fails — and returns [Exit] for every request outside [P].  The first three theorems
     spell out the two clauses of the property that follow from it. *)
 From Coq Require Import ZArith String List Bool Reals Lia Lra.
-From LP Require Import Num NumR OrdLaws C10_Model C10_Proofs C10_Proofs_Num C10_Proofs_Block C10_Proofs_Hist C10_Proofs_Nest C10_Proofs_More.
+From LP Require Import Num NumR OrdLaws C10_Model C10_Proofs C10_Proofs_Num C10_Proofs_Block C10_Proofs_Hist C10_Proofs_Nest C10_Proofs_More C10_Model2 C10_Proofs_Hunt C10_Proofs_Hunt2.
 Import ListNotations.
 Local Open Scope Z_scope.
 
@@ -644,3 +644,73 @@ Example C10_examples :
   mat_session 3 3 [MResize 2 5; MDelCol 4] (PPlus 2 5) = Exit /\ mat_session 2 3 [MTranspose; MDelRow 3] PNone = Exit /\
   factorial_session ROps 1 [FFact 170; FFact 3] = Ok tt /\ factorial_session ROps 1 [FFact 170; FFact 171] = Exit.
 Proof. repeat split; try reflexivity; apply C10_factorial_history; repeat constructor; cbn; lia. Qed.
+
+
+(** ** Locate with its search state (C10_Model2.v: jLast, correlated_calls, Hunt() line by line) *)
+
+(** "never ... reads or writes memory out of bounds", for Hunt(x): on an object whose jLast is an interval index and for an
+    argument that passed Locate's domain test (the two comparisons are the ones Locate makes), both hunting loops and the
+    final bisection read only x_values[0 .. N-1], end within their fuel, and the result is an interval index.  Every
+    number type, no order law: IEEE doubles as they are, tables with NaN entries included. *)
+Theorem C10_hunt_stays_in_table {T} (Ops : NumOps T) (xs : list T) (jl : Z) (x : T) :
+  2 <= zlen xs < 2147483648 -> 0 <= jl <= zlen xs - 2 ->
+  nltb Ops x (xv Ops xs 0) = false -> nltb Ops (xv Ops xs (zlen xs - 1)) x = false ->
+  exists j, hunt Ops xs jl x = Ok j /\ 0 <= j <= zlen xs - 2.
+Proof. exact (hunt_range Ops xs jl x). Qed.
+Print Assumptions C10_hunt_stays_in_table.
+
+(** "terminates the process" / "returns normally", for a request that is not the first one on the object: in every admissible
+    search state Locate(x) exits exactly when the stateless Locate does (so C10_locate_guard / C10_locate_tolerance decide it),
+    never reads out of bounds, and otherwise returns an interval index and stores it in jLast (the state stays admissible) *)
+Theorem C10_locate_with_search_state {T} (Ops : NumOps T) (xs : list T) (st : lstate) (x : T) :
+  2 <= zlen xs < 2147483648 -> state_ok xs st ->
+  (locate_st Ops xs st x = Exit /\ locate Ops xs x = Exit) \/
+  (exists j, locate_st Ops xs st x = Ok (j, {| jLast := j; corr := u32 (j - jLast st) <? 10 |}) /\
+             0 <= j <= zlen xs - 2 /\ exists j', locate Ops xs x = Ok j').
+Proof. exact (locate_st_cases Ops xs st x). Qed.
+Print Assumptions C10_locate_with_search_state.
+
+(** a sequence of Locate requests of any length on one object, starting in any admissible state (the constructors' state
+    [lstate0] is one: C10_locate_state_hypotheses): the process ends iff one request is refused by the stateless Locate;
+    otherwise every request returns an interval index and leaves it in jLast *)
+Theorem C10_locate_sequence_with_search_state {T} (Ops : NumOps T) (xs : list T) (reqs : list T) :
+  2 <= zlen xs < 2147483648 -> forall st, state_ok xs st ->
+  (locate_trace_from Ops xs st reqs = Exit /\ exists x, In x reqs /\ locate Ops xs x = Exit) \/
+  (exists l, locate_trace_from Ops xs st reqs = Ok l /\ length l = length reqs /\
+             (forall x, In x reqs -> exists j, locate Ops xs x = Ok j) /\
+             Forall (fun t => 0 <= fst t <= zlen xs - 2 /\ fst (snd t) = fst t) l).
+Proof. exact (locate_trace_from_spec Ops xs reqs). Qed.
+Print Assumptions C10_locate_sequence_with_search_state.
+
+(** the search state never changes an answer: over every strictly ordered number type (doubles without NaN, rounding included)
+    and every strictly increasing table, Locate(x) in any admissible state returns the index of the stateless Locate -
+    Hunt() in both directions with every stride, its range cut and final bisection, followed by the step onto a tabulated
+    abscissa, is the same function as Bisection(x, 0, N-1) followed by that step.  (Until this pass: quoted from C09 and
+    observed by the run against an untouched copy of the object.) *)
+Theorem C10_search_state_never_changes_an_answer {T} (Ops : NumOps T) (L : OrdLaws Ops) (xs : list T) (st : lstate) (x : T) :
+  2 <= zlen xs < 2147483648 -> increasing Ops xs -> state_ok xs st ->
+  locate_st Ops xs st x =
+  match locate Ops xs x with
+  | Ok j => Ok (j, {| jLast := j; corr := u32 (j - jLast st) <? 10 |})
+  | Exit => Exit | OOB => OOB | Fuel => Fuel
+  end.
+Proof. exact (locate_st_same_index Ops L xs st x). Qed.
+Print Assumptions C10_search_state_never_changes_an_answer.
+
+Theorem C10_locate_sequence_same_indices {T} (Ops : NumOps T) (L : OrdLaws Ops) (xs : list T) (reqs : list T) :
+  2 <= zlen xs < 2147483648 -> increasing Ops xs -> forall st l, state_ok xs st ->
+  locate_trace_from Ops xs st reqs = Ok l -> map (fun t => Ok (fst t)) l = map (locate Ops xs) reqs.
+Proof. exact (locate_trace_indices Ops L xs reqs). Qed.
+Print Assumptions C10_locate_sequence_same_indices.
+
+(** non-vacuity: a table, an order and two states (the constructors' one and a correlated one) that satisfy the hypotheses *)
+Example C10_locate_state_hypotheses :
+  OrdLaws ROps /\ 2 <= zlen [0; 1; 2]%R < 2147483648 /\ increasing ROps [0; 1; 2]%R /\
+  state_ok [0; 1; 2]%R lstate0 /\ state_ok [0; 1; 2]%R {| jLast := 1; corr := true |} /\
+  nltb ROps 1.5%R (xv ROps [0; 1; 2]%R 0) = false /\ nltb ROps (xv ROps [0; 1; 2]%R (zlen [0; 1; 2]%R - 1)) 1.5%R = false.
+Proof.
+  split; [exact ROps_OrdLaws|]. split; [unfold zlen; cbn; lia|]. split.
+  - intros i Hi. unfold zlen in Hi; cbn in Hi. assert (Hc : i = 1 \/ i = 2) by lia.
+    destruct Hc; subst i; unfold xv; simpl; apply Rltb_true; lra.
+  - repeat split; try (unfold state_ok, zlen; cbn; lia); unfold xv, zlen; simpl; apply Rltb_false; lra.
+Qed.
